@@ -4,7 +4,9 @@ LEVEL = 'proof'
 CONTRACT_MODULES = ['contracts.evals', 'contracts.binary']
 CONE = ['csep.core.poisson_evaluations._simulate_catalog', 'csep.core.poisson_evaluations._poisson_likelihood_test', 'csep.core.poisson_evaluations.conditional_likelihood_test', 'csep.core.poisson_evaluations.spatial_test', 'csep.core.poisson_evaluations.magnitude_test',
         'csep.core.binomial_evaluations._simulate_catalog', 'csep.core.brier_evaluations._simulate_catalog',
-        'csep.core.binomial_evaluations._binary_likelihood_test', 'csep.core.brier_evaluations._brier_score_test']
+        'csep.core.binomial_evaluations._binary_likelihood_test', 'csep.core.brier_evaluations._brier_score_test',
+        'csep.core.binomial_evaluations.binary_spatial_test', 'csep.core.binomial_evaluations.binary_conditional_likelihood_test',
+        'csep.core.brier_evaluations.brier_score_test']
 ORACLE_MODULES = ['rt.oracles_eval', 'rt.oracles_contracts']
 BOUNDED = os.path.exists(os.path.join(os.path.dirname(__file__), '..', 'rt', 'bounded_C06.py'))
 FLOAT_MODEL = 'R for the placement clause (comparisons of the given floats are exact); the clause "last cumulative weight reaches 1" is about rounding and is bounded only'
